@@ -194,6 +194,9 @@ pub struct Probe {
     pub budget: usize,
     /// fail at this call number (1-based) with Marker(k)
     pub fail_at: Option<usize>,
+    /// what the failing call returns: 0 Marker(k) (a private error type), 1 a boxed library error
+    /// (IVPError::MinimumTimeDeltaExceeded, as a derivative that runs a nested solve would forward), 2 a boxed std::fmt::Error
+    pub fail_payload: u8,
     pub record: bool,
     pub log: Vec<(f64, Vec<f64>)>,
     pub budget_hit: bool,
@@ -217,7 +220,11 @@ where
                 return Err(Box::new(BudgetHit) as UserError);
             }
             if p.fail_at == Some(p.calls) {
-                return Err(Box::new(Marker(p.calls)) as UserError);
+                return Err(match p.fail_payload {
+                    1 => Box::new(IVPError::MinimumTimeDeltaExceeded) as UserError,
+                    2 => Box::new(std::fmt::Error) as UserError,
+                    _ => Box::new(Marker(p.calls)) as UserError,
+                });
             }
             if p.record {
                 let v: Vec<f64> = y.iter().map(|z| z.real()).collect();
